@@ -236,3 +236,325 @@ Proof.
     destruct fr; [symmetry in H; apply (Hquiet v _ (or_introl eq_refl) H)|].
     symmetry in H; apply (Hquiet _ _ (or_intror eq_refl) H).
 Qed.
+
+(* ------------------------------------------------------------------------------------------ *)
+(* histories: every access confined, every slice nested, every view inside the allocation        *)
+(* ------------------------------------------------------------------------------------------ *)
+Definition inside (lo hi : Z) (v : view) : Prop := lo <= v_start v /\ v_start v <= v_end v /\ v_end v <= hi.
+
+Lemma views_inside_intro : forall l fr m r t,
+  l = r :: t -> Forall (inside (v_start r) (v_end r)) l -> views_inside (mkState l fr m).
+Proof. intros l fr m r t Hl Hall. unfold views_inside. cbn [st_views]. rewrite Hl in *. exact Hall. Qed.
+
+Lemma init_inside : forall s e m, views_inside (init s e m).
+Proof.
+  intros s e m. unfold init, views_inside, new_view. cbn [st_views v_start v_end].
+  constructor; [cbn [v_start v_end]; lia | constructor].
+Qed.
+
+Lemma vstep_slice_nested : forall fr m v a b step v' nw out s' e',
+  v_start v <= v_end v ->
+  vstep fr m v (Slice a b step) = (v', nw, out) -> o_res out = Ok (VView s' e') ->
+  v_start v <= s' /\ s' <= e' /\ e' <= v_end v.
+Proof.
+  intros fr m v a b step v' nw out s' e' Hwf H Hres. cbn [vstep] in H.
+  destruct (dead fr v) eqn:Ed; [inversion H; subst; discriminate|].
+  destruct (contiguous step); [|inversion H; subst; discriminate].
+  inversion H; subst v' nw out; clear H. cbn [o_res ok] in Hres. injection Hres as Hs He. subst s' e'.
+  apply slice_view_nested. exact Hwf.
+Qed.
+
+Lemma step_inv : forall st o st' out,
+  views_inside st -> step st o = (st', out) ->
+  views_inside st' /\ confined_event (st, o, out) /\ nested_event (st, o, out).
+Proof.
+  intros st o st' out Hin Hstep. unfold step, step_with in Hstep.
+  destruct o as [i vo|].
+  - destruct (nth_error (st_views st) i) as [v|] eqn:Hnth.
+    2:{ inversion Hstep; subst st' out. split; [exact Hin|]. split.
+        - cbn. intros c [].
+        - cbn. destruct vo; try exact I. cbn. intros; discriminate. }
+    destruct (vstep (st_freed st) (st_mem st) v vo) as [[v' nw] out0] eqn:Hv.
+    inversion Hstep; subst st' out0; clear Hstep.
+    destruct (vstep_ranges _ _ _ _ _ _ _ Hv) as (Hcalls & Hs & He & _ & Hnew).
+    unfold views_inside in Hin.
+    destruct (st_views st) as [|root t] eqn:Hviews; [destruct i; discriminate|].
+    assert (Hv_in : inside (v_start root) (v_end root) v) by (eapply nth_error_Forall; eassumption).
+    split; [|split].
+    + (* the new list of views *)
+      assert (Hall : Forall (inside (v_start root) (v_end root)) (set_nth i v' (root :: t) ++ opt_list nw)).
+      { apply Forall_app. split.
+        - apply Forall_set_nth; [exact Hin|]. unfold inside in *. rewrite Hs, He. exact Hv_in.
+        - destruct nw as [w|]; cbn [opt_list]; [|constructor].
+          destruct (Hnew w eq_refl) as (a & b & step & _ & Hw & _).
+          constructor; [|constructor].
+          assert (Hn := slice_view_nested v a b ltac:(unfold inside in Hv_in; lia)). cbv zeta in Hn.
+          rewrite <- Hw in Hn. unfold inside in *. lia. }
+      destruct i as [|j]; cbn [set_nth app] in Hall |- *.
+      * cbn [nth_error] in Hnth. injection Hnth as Hnth. subst v.
+        eapply views_inside_intro; [reflexivity|]. rewrite Hs, He. exact Hall.
+      * eapply views_inside_intro; [reflexivity|]. exact Hall.
+    + cbn. intros c Hc. exists v. rewrite Hviews. split; [exact Hnth|]. apply Hcalls. exact Hc.
+    + cbn. destruct vo; try exact I. intros s' e' Hres. exists v. rewrite Hviews. split; [exact Hnth|].
+      eapply vstep_slice_nested; [|exact Hv|exact Hres]. unfold inside in Hv_in. lia.
+  - destruct (st_views st) as [|root t] eqn:Hviews.
+    + inversion Hstep; subst st' out. split; [exact Hin|]. split; [|exact I]. cbn. intros c [].
+    + destruct (st_freed st); inversion Hstep; subst st' out; clear Hstep.
+      * split; [exact Hin|]. split; [|exact I]. cbn. intros c [].
+      * split; [|split; [|exact I]].
+        -- unfold views_inside in *. cbn [st_views]. rewrite Hviews in *. exact Hin.
+        -- cbn. intros c [Hc|[]]. exists root. rewrite Hviews. split; [reflexivity|]. symmetry. exact Hc.
+Qed.
+
+Lemma trace_cons : forall st o rest,
+  trace st (o :: rest) = (st, o, snd (step st o)) :: trace (fst (step st o)) rest.
+Proof. intros st o rest. unfold trace. cbn [trace_with]. fold step. destruct (step st o); reflexivity. Qed.
+
+Lemma run_cons : forall st o rest, run st (o :: rest) = run (fst (step st o)) rest.
+Proof. reflexivity. Qed.
+
+Theorem history_confined : forall ops st,
+  views_inside st ->
+  Forall (fun e => views_inside (fst (fst e)) /\ confined_event e /\ nested_event e) (trace st ops)
+  /\ views_inside (run st ops).
+Proof.
+  induction ops as [|o rest IH]; intros st Hin.
+  - split; [constructor | exact Hin].
+  - rewrite trace_cons, run_cons.
+    destruct (step st o) as [st' out] eqn:Hstep. cbn [fst snd].
+    destruct (step_inv _ _ _ _ Hin Hstep) as (Hin' & Hc & Hn).
+    destruct (IH st' Hin') as (Hall & Hfin).
+    split; [|exact Hfin]. constructor; [|exact Hall]. cbn [fst]. repeat split; assumption.
+Qed.
+
+(* the range of a view never changes, and views are only ever appended *)
+Lemma step_ranges_fixed : forall st o st' out i v,
+  step st o = (st', out) -> nth_error (st_views st) i = Some v ->
+  exists v', nth_error (st_views st') i = Some v' /\ v_start v' = v_start v /\ v_end v' = v_end v
+             /\ (dead (st_freed st) v = true -> dead (st_freed st') v' = true).
+Proof.
+  intros st o st' out i v Hstep Hnth. unfold step, step_with in Hstep.
+  destruct o as [j vo|].
+  - destruct (nth_error (st_views st) j) as [u|] eqn:Hj.
+    2:{ inversion Hstep; subst. exists v. repeat split; try assumption; tauto. }
+    destruct (vstep (st_freed st) (st_mem st) u vo) as [[u' nw] out0] eqn:Hv.
+    inversion Hstep; subst st' out0; clear Hstep. cbn [st_views st_freed].
+    destruct (vstep_ranges _ _ _ _ _ _ _ Hv) as (_ & Hs & He & Hcl & _).
+    assert (Hlt : (i < length (st_views st))%nat) by (apply nth_error_Some; congruence).
+    rewrite nth_error_app1 by (rewrite set_nth_length; exact Hlt).
+    destruct (Nat.eq_dec j i) as [Heq|Hne].
+    + subst j. rewrite Hnth in Hj. injection Hj as Hj. subst u.
+      rewrite nth_error_set_nth_eq by exact Hlt. exists u'. repeat split; try assumption.
+      unfold dead. intros Hd. apply orb_true_iff in Hd. apply orb_true_iff.
+      destruct Hd as [Hd|Hd]; [left; apply Hcl; exact Hd | right; exact Hd].
+    + rewrite nth_error_set_nth_neq by exact Hne. exists v. repeat split; try assumption; tauto.
+  - destruct (st_views st) as [|root t] eqn:Hviews; [destruct i; discriminate|].
+    destruct (st_freed st) eqn:Hf; inversion Hstep; subst st' out; clear Hstep; cbn [st_views st_freed];
+      rewrite ?Hviews; exists v; repeat split; try assumption; try tauto.
+    all: intros _; unfold dead; cbn [st_freed]; rewrite ?Hf; apply orb_true_r.
+Qed.
+
+(* ------------------------------------------------------------------------------------------ *)
+(* dead views                                                                                   *)
+(* ------------------------------------------------------------------------------------------ *)
+Lemma dead_vstep : forall fr m v vo,
+  dead fr v = true -> guarded vo = true -> vstep fr m v vo = (v, None, err 0).
+Proof.
+  intros fr m v vo Hd Hg. destruct vo; cbn [guarded] in Hg; try discriminate; cbn [vstep]; rewrite Hd; reflexivity.
+Qed.
+
+Lemma dead_step : forall st i v vo,
+  nth_error (st_views st) i = Some v -> dead (st_freed st) v = true -> guarded vo = true ->
+  step st (OView i vo) = (st, err 0).
+Proof.
+  intros st i v vo Hnth Hd Hg. unfold step, step_with. rewrite Hnth.
+  rewrite (dead_vstep _ _ _ _ Hd Hg). cbn [opt_list o_calls err apply_calls fold_left].
+  rewrite app_nil_r. rewrite (set_nth_same _ _ _ _ Hnth). destruct st; reflexivity.
+Qed.
+
+Theorem dead_forever : forall ops st i v,
+  nth_error (st_views st) i = Some v -> dead (st_freed st) v = true ->
+  Forall (fun e => let '(st1, o, out) := e in
+                   forall vo, o = OView i vo -> guarded vo = true -> out = err 0)
+         (trace st ops).
+Proof.
+  induction ops as [|o rest IH]; intros st i v Hnth Hd.
+  - constructor.
+  - rewrite trace_cons. destruct (step st o) as [st' out] eqn:Hstep. cbn [fst snd].
+    constructor.
+    + intros vo Ho Hg. subst o. rewrite (dead_step _ _ _ _ Hnth Hd Hg) in Hstep.
+      inversion Hstep. reflexivity.
+    + destruct (step_ranges_fixed _ _ _ _ _ _ Hstep Hnth) as (v' & Hnth' & _ & _ & Hd').
+      apply (IH st' i v' Hnth' (Hd' Hd)).
+Qed.
+
+Lemma close_kills : forall st i v st' out,
+  nth_error (st_views st) i = Some v -> step st (OView i Close) = (st', out) ->
+  exists v', nth_error (st_views st') i = Some v' /\ dead (st_freed st') v' = true
+             /\ o_calls out = [] /\ (o_res out = Ok VNone \/ o_res out = Failed 0).
+Proof.
+  intros st i v st' out Hnth Hstep. unfold step, step_with in Hstep. rewrite Hnth in Hstep. cbn [vstep] in Hstep.
+  assert (Hlt : (i < length (st_views st))%nat) by (apply nth_error_Some; congruence).
+  destruct (v_closed v) eqn:Ec; [|destruct (st_freed st) eqn:Ef];
+    inversion Hstep; subst st' out; clear Hstep; cbn [st_views st_freed opt_list o_calls o_res ok err];
+    rewrite app_nil_r, nth_error_set_nth_eq by exact Hlt; eexists; (split; [reflexivity|]);
+    unfold dead; cbn [set_closed v_closed]; rewrite ?Ec, ?Ef; repeat split; auto using orb_true_r.
+Qed.
+
+Lemma free_kills : forall st st' out,
+  st_views st <> [] -> step st OFree = (st', out) ->
+  st_freed st' = true /\ st_views st' = st_views st
+  /\ (forall c, In c (o_calls out) -> exists a, c = CFree a).
+Proof.
+  intros st st' out Hne Hstep. unfold step, step_with in Hstep.
+  destruct (st_views st) as [|root t] eqn:Hviews; [congruence|].
+  destruct (st_freed st) eqn:Ef; inversion Hstep; subst st' out; clear Hstep; cbn [st_freed st_views o_calls err].
+  - repeat split; try assumption. intros c [].
+  - repeat split. intros c [Hc|[]]. eexists. symmetry. exact Hc.
+Qed.
+
+(* ------------------------------------------------------------------------------------------ *)
+(* reads and writes in terms of the bytes that move                                             *)
+(* ------------------------------------------------------------------------------------------ *)
+Lemma read_transfers : forall m v n v' out,
+  read m v n = (v', out) ->
+  let k := transfer (v_off v) (read_req v n) (vlen v) in
+  o_res out = Ok (VBytes (mem_read m (address v) k))
+  /\ v' = set_off v (v_off v + k)
+  /\ (0 <? o_warns out) = warned (v_off v) (read_req v n) (vlen v)
+  /\ o_calls out = (if 0 <? k then [CRead (address v) k] else []).
+Proof.
+  intros m v n v' out H. unfold read in H.
+  pose proof (read_plan_spec v n) as Hsp. cbv zeta in Hsp.
+  destruct (read_plan v n) as [w k0]; cbn [fst snd] in Hsp.
+  destruct Hsp as (Hw & Hpos & Hzero). cbv zeta.
+  destruct (k0 <=? 0) eqn:Ek; inversion H; subst v' out; clear H; cbn [o_res o_warns o_calls].
+  - apply Z.leb_le in Ek. rewrite (Hzero Ek). cbn. repeat split; try assumption.
+    destruct v; unfold set_off; cbn. f_equal. lia.
+  - apply Z.leb_gt in Ek. rewrite <- (Hpos Ek).
+    assert (Hlt : (0 <? k0) = true) by (apply Z.ltb_lt; exact Ek). rewrite Hlt.
+    repeat split; assumption.
+Qed.
+
+Lemma write_transfers : forall v bs v' out,
+  write v bs = (v', out) ->
+  let k := transfer (v_off v) (zlen bs) (vlen v) in
+  o_res out = Ok (VInt k)
+  /\ v' = set_off v (v_off v + k)
+  /\ (0 <? o_warns out) = warned (v_off v) (zlen bs) (vlen v)
+  /\ o_calls out = (if 0 <? k then [CWrite (address v) (firstn (Z.to_nat k) bs)] else []).
+Proof.
+  intros v bs v' out H. unfold write in H.
+  pose proof (write_plan_spec v bs) as Hsp. cbv zeta in Hsp.
+  destruct (write_plan v bs) as [w b]; cbn [fst snd] in Hsp.
+  destruct Hsp as (Hw & Hlen & Hb). cbv zeta.
+  destruct (zlen b =? 0) eqn:Ek; inversion H; subst v' out; clear H; cbn [o_res o_warns o_calls].
+  - apply Z.eqb_eq in Ek. rewrite <- Hlen, Ek. cbn. repeat split; try assumption.
+    destruct v; unfold set_off; cbn. f_equal. lia.
+  - apply Z.eqb_neq in Ek. pose proof (zlen_nonneg _ b) as Hnn.
+    assert (Hlt : (0 <? transfer (v_off v) (zlen bs) (vlen v)) = true) by (apply Z.ltb_lt; lia).
+    rewrite Hlt. rewrite <- Hb. rewrite <- Hlen. repeat split; assumption.
+Qed.
+
+Lemma transfer_explicit : forall pos req n,
+  (0 <= pos -> transfer pos req n = Z.max 0 (Z.min req (n - pos)))
+  /\ (pos < 0 -> transfer pos req n = 0)
+  /\ (0 <= req -> 0 <= transfer pos req n <= req)
+  /\ (0 <= req -> transfer pos req n < req -> warned pos req n = true)
+  /\ (0 <= pos <= n -> warned pos req n = true -> transfer pos req n < req).
+Proof.
+  intros pos req n. unfold transfer, warned. repeat split; intros; zcases; cbn [andb orb] in *; try lia.
+Qed.
+
+Lemma mem_read_length : forall m a k, 0 <= k -> zlen (mem_read m a k) = k.
+Proof. intros m a k Hk. unfold mem_read, zlen. rewrite map_length, seq_length. lia. Qed.
+
+(* the sentence of the property about truncation, for read(n) with an explicit count n >= 0 *)
+Theorem read_truncation : forall m v n v' out,
+  0 <= n -> read m v n = (v', out) ->
+  exists k, o_res out = Ok (VBytes (mem_read m (address v) k)) /\ zlen (mem_read m (address v) k) = k
+    /\ 0 <= k <= n
+    /\ v_off v' = v_off v + k
+    /\ (0 <= v_off v -> k = Z.max 0 (Z.min n (vlen v - v_off v)))
+    /\ (v_off v < 0 -> k = 0)
+    /\ (k < n -> 0 < o_warns out)
+    /\ (0 <= v_off v <= vlen v -> 0 < o_warns out -> k < n).
+Proof.
+  intros m v n v' out Hn H. destruct (read_transfers _ _ _ _ _ H) as (Hres & Hv' & Hw & _). cbv zeta in *.
+  assert (Hreq : read_req v n = n) by (unfold read_req; destruct (Z.ltb_spec n 0); [lia|reflexivity]).
+  rewrite Hreq in *.
+  destruct (transfer_explicit (v_off v) n (vlen v)) as (H1 & H2 & H3 & H4 & H5).
+  exists (transfer (v_off v) n (vlen v)).
+  split; [exact Hres|]. split; [apply mem_read_length; lia|]. split; [lia|].
+  split; [subst v'; reflexivity|]. split; [exact H1|]. split; [exact H2|].
+  split.
+  - intros Hlt. apply Z.ltb_lt. rewrite Hw. apply H4; [exact Hn|exact Hlt].
+  - intros Hr Hpos. apply H5; [exact Hr|]. rewrite <- Hw. apply Z.ltb_lt. exact Hpos.
+Qed.
+
+(* read() / read(negative): everything from the cursor to the end, no truncation to speak of *)
+Theorem read_default : forall m v n v' out,
+  n < 0 -> read m v n = (v', out) ->
+  let k := if (0 <=? v_off v) && (v_off v <=? vlen v) then vlen v - v_off v else 0 in
+  o_res out = Ok (VBytes (mem_read m (address v) k)) /\ v_off v' = v_off v + k.
+Proof.
+  intros m v n v' out Hn H. destruct (read_transfers _ _ _ _ _ H) as (Hres & Hv' & _ & _). cbv zeta in *.
+  assert (Hreq : read_req v n = vlen v - v_off v) by (unfold read_req; destruct (Z.ltb_spec n 0); [reflexivity|lia]).
+  rewrite Hreq in *.
+  assert (Hk : transfer (v_off v) (vlen v - v_off v) (vlen v)
+               = if (0 <=? v_off v) && (v_off v <=? vlen v) then vlen v - v_off v else 0).
+  { unfold transfer. zcases; cbn [andb]; lia. }
+  rewrite Hk in *. split; [exact Hres|]. subst v'. reflexivity.
+Qed.
+
+Theorem write_truncation : forall v bs v' out,
+  write v bs = (v', out) ->
+  exists k, o_res out = Ok (VInt k)
+    /\ 0 <= k <= zlen bs
+    /\ v_off v' = v_off v + k
+    /\ o_calls out = (if 0 <? k then [CWrite (address v) (firstn (Z.to_nat k) bs)] else [])
+    /\ (0 <= v_off v -> k = Z.max 0 (Z.min (zlen bs) (vlen v - v_off v)))
+    /\ (v_off v < 0 -> k = 0)
+    /\ (k < zlen bs -> 0 < o_warns out)
+    /\ (0 <= v_off v <= vlen v -> 0 < o_warns out -> k < zlen bs).
+Proof.
+  intros v bs v' out H. destruct (write_transfers _ _ _ _ H) as (Hres & Hv' & Hw & Hc). cbv zeta in *.
+  pose proof (zlen_nonneg _ bs) as Hn.
+  destruct (transfer_explicit (v_off v) (zlen bs) (vlen v)) as (H1 & H2 & H3 & H4 & H5).
+  exists (transfer (v_off v) (zlen bs) (vlen v)).
+  split; [exact Hres|]. split; [lia|]. split; [subst v'; reflexivity|]. split; [exact Hc|].
+  split; [exact H1|]. split; [exact H2|].
+  split.
+  - intros Hlt. apply Z.ltb_lt. rewrite Hw. apply H4; [exact Hn|exact Hlt].
+  - intros Hr Hpos. apply H5; [exact Hr|]. rewrite <- Hw. apply Z.ltb_lt. exact Hpos.
+Qed.
+
+(* ------------------------------------------------------------------------------------------ *)
+(* the range of a slice                                                                         *)
+(* ------------------------------------------------------------------------------------------ *)
+Theorem slice_range : forall v a b,
+  v_start v <= v_end v ->
+  let w := slice_view v a b in
+  v_start v <= v_start w /\ v_start w <= v_end w /\ v_end w <= v_end v
+  /\ v_off w = 0 /\ v_closed w = false
+  /\ (forall x, v_start w <= x < v_end w <-> in_slice (vlen v) a b (x - v_start v)).
+Proof.
+  intros v a b Hwf. cbv zeta.
+  destruct (slice_view_nested v a b Hwf) as (H1 & H2 & H3). cbv zeta in *.
+  split; [exact H1|]. split; [exact H2|]. split; [exact H3|]. split; [reflexivity|]. split; [reflexivity|].
+  intros x. unfold in_slice, named_start, named_stop, vlen, slice_view, new_view, slice_start, slice_stop.
+  cbn [v_start v_end].
+  destruct a as [p|]; destruct b as [q|]; zcases; lia.
+Qed.
+
+(* the same bounds as Python's slice(a, b).indices(len) *)
+Lemma slice_view_clip : forall v a b,
+  v_start v <= v_end v ->
+  let w := slice_view v a b in
+  v_start w = v_start v + clip_start (vlen v) a
+  /\ v_end w = v_start v + Z.max (clip_start (vlen v) a) (clip_stop (vlen v) b).
+Proof.
+  intros v a b Hwf. unfold slice_view, new_view, slice_start, slice_stop, clip_start, clip_stop, clip, vlen.
+  cbn [v_start v_end].
+  destruct a as [p|]; destruct b as [q|]; zcases; lia.
+Qed.
